@@ -1,4 +1,5 @@
 import I2N.Model.TravStep
+import I2N.Model.TravMon
 /-! Line-protocol driver for engine E6 (traversal model).  See harness/travlib.py `spec_lines`. -/
 open I2N.Trav
 
@@ -9,6 +10,7 @@ structure DSt where
   pool : List (String × List (String × String)) := []
   st : Option State := none
   ncls : Nat := 0
+  trace : List MEv := []
 
 def kv (toks : List String) (k : String) : String :=
   match toks.find? (fun t => t.startsWith (k ++ "=")) with
@@ -80,6 +82,44 @@ def step (d : DSt) (line : String) : DSt × String :=
     match d.st with
     | some s => (d, ((reprStr (s.nodes.map (fun n => (n.started, n.finished, n.results.length))) ++ " W " ++ reprStr (s.workers.map (fun w => (w.path, w.occAt)))).replace "\n" " "))
     | none => (d, "bad-op")
+  | "ev" :: kind :: w :: rest =>
+    let wi := w.toNat!
+    let clsOf := fun (c : String) => if c.startsWith "pre:" then ((c.drop 4).toString.toNat!, true) else (c.toNat!, false)
+    let e : MEv :=
+      match kind, rest with
+      | "start", c :: uid :: more =>
+        let (ci, pre) := clsOf c
+        let locs := (splitList (kv more "locs")).filterMap (fun it =>
+          match it.splitOn "=" with
+          | [vm, toks] => some (vm, (toks.splitOn "+").map (fun x => if x == "S" then "" else x))
+          | _ => none)
+        { kind := kind, w := wi, cls := ci, pre := pre, uid := uid, locs := locs,
+          nodeWorker := (kv more "nw").toNat!, netsOk := kv more "nets" == "1",
+          access := if kv more "access" == "" || kv more "access" == "-" then [] else (kv more "access").splitOn "+" }
+      | "end", [c, uid, st, dur] =>
+        let (ci, pre) := clsOf c
+        { kind := kind, w := wi, cls := ci, pre := pre, uid := uid, status := st, dur := dur.toNat! }
+      | "door", action :: more =>
+        { kind := kind, w := wi, action := action, reqs := pairs (kv more "reqs"), ok := kv more "ok" == "true" }
+      | _, more => { kind := kind, w := wi, status := " ".intercalate more }
+    ({ d with trace := e :: d.trace }, "ok")
+  | ["mon", which] =>
+    let g : Graph := { workers := d.workers, nodes := d.nodes, root := d.root }
+    let t := d.trace.reverse
+    let out :=
+      match which with
+      | "overlap" => (overlapViolations g t).map (fun (w, c) => s!"{(g.worker w).id}/class{c}")
+      | "count" => (countViolations g t).map (fun (w, c, k) => s!"{(g.worker w).id}/class{c}/{k}")
+      | "present" => (presentNotRunViolations g t).map (fun (w, c) => s!"{(g.worker w).id}/class{c}")
+      | "owner" => (ownerViolations g t).map (fun (w, c, what) => s!"{(g.worker w).id}/class{c}/{what}")
+      | "states" => (statesViolations g d.pool t).map (fun (w, c, vm, st) => s!"{(g.worker w).id}/class{c}/{vm}:{st}")
+      | "cleanup" => (cleanupViolations g t).map (fun (w, what, x) => s!"{(g.worker w).id}/{what}/{x}")
+      | "result" => resultViolations g t false
+      | "result-dry" => resultViolations g t true
+      | "uid" => (uidViolations g t).map (fun (w, u) => s!"{(g.worker w).id}/{u}")
+      | "intervals" => (intervals t).map (fun i => s!"{i.w}:{i.cls}:{i.s}-{i.e}:{i.dur}:{i.main}")
+      | _ => ["bad-monitor"]
+    (d, if out.isEmpty then "ok" else " ; ".intercalate out)
   | ["store"] =>
     match d.st with
     | some s => (d, " ; ".intercalate (s.store.map (fun (l, sts) => l ++ "=" ++ ",".intercalate (sts.map (fun (a, b) => a ++ ":" ++ b)))))
